@@ -5,7 +5,7 @@ REPO  ?= /repo
 BUILD ?= $(VERIF)/build
 RB    := $(BUILD)/repo
 SRC   := $(VERIF)/checks/$(ID)
-OUT   := $(BUILD)/checks/$(ID)
+OUT   ?= $(BUILD)/checks/$(ID)
 
 # per-check knobs (checks/<ID>/build.mk may set): LINK=full|small|none, KITS=chainkit ..., CXXEXTRA, LDEXTRA, NOACCESS=1
 LINK ?= full
@@ -17,14 +17,19 @@ NOACCESS ?= 1
 # repo sources with -fsanitize=thread (atomics become scheduling points) and links them in front of the archives
 SCHED ?= 0
 TSAN_SRCS ?=
+# mutant builds (bin/mutant-test): SHADOW=<dir> holds mutated copies under <dir>/src shadowing $(REPO)/src;
+# MUT_SRCS = repo sources to recompile against the shadow and link in front of the archives
+SHADOW ?=
+MUT_SRCS ?=
 -include $(SRC)/build.mk
 
 CXX := g++
-INCS := -I$(VERIF) -I$(RB)/src -I$(REPO)/src -I$(REPO)/src/univalue/include -I$(REPO)/src/minisketch/include \
+INCS := $(if $(SHADOW),-I$(SHADOW)/src) -I$(VERIF) -I$(RB)/src -I$(REPO)/src -I$(REPO)/src/univalue/include -I$(REPO)/src/minisketch/include \
         -I$(REPO)/src/secp256k1/include -I$(REPO)/src/leveldb/include
 CXXFLAGS := -O1 -g0 -std=c++20 -fno-extended-identifiers -fstack-reuse=none -pthread \
             -DBOOST_MULTI_INDEX_DISABLE_SERIALIZATION -DBOOST_NO_CXX98_FUNCTION_BASE -DVERIF_HARNESS \
             -Wno-deprecated-declarations $(INCS) $(CXXEXTRA)
+REPOCXXFLAGS := $(CXXFLAGS)
 ifeq ($(NOACCESS),1)
 CXXFLAGS += -fno-access-control
 endif
@@ -48,7 +53,9 @@ OBJS := $(patsubst $(SRC)/%.cpp,$(OUT)/%.o,$(SRCS))
 ifneq ($(LINK),none)
 KITS += glue
 endif
-KITOBJS := $(patsubst %,$(BUILD)/kits/%.o,$(sort $(KITS)))
+KITDIR := $(if $(SHADOW),$(OUT)/kits,$(BUILD)/kits)
+KITOBJS := $(patsubst %,$(KITDIR)/%.o,$(sort $(KITS)))
+MUTOBJS := $(patsubst %.cpp,$(OUT)/mut/%.o,$(MUT_SRCS))
 ifeq ($(SCHED),1)
 SCHEDOBJS := $(BUILD)/vx/sched.o $(BUILD)/vx/tsanabi.o $(BUILD)/vx/sched_cb.o
 endif
@@ -61,8 +68,8 @@ $(OUT)/%.o: $(SRC)/%.cpp
 	@mkdir -p $(OUT)
 	$(CXX) $(CXXFLAGS) -MMD -MP -c $< -o $@
 
-$(BUILD)/kits/%.o: $(VERIF)/kits/%.cpp
-	@mkdir -p $(BUILD)/kits
+$(KITDIR)/%.o: $(VERIF)/kits/%.cpp
+	@mkdir -p $(KITDIR)
 	$(CXX) $(CXXFLAGS) -MMD -MP -c $< -o $@
 
 $(BUILD)/vx/%.o: $(VERIF)/vx/%.c
@@ -73,12 +80,19 @@ $(BUILD)/vx/%.o: $(VERIF)/vx/%.cpp
 	@mkdir -p $(BUILD)/vx
 	$(CXX) -O1 -g0 -std=c++20 -I$(VERIF) -c $< -o $@
 
-$(OUT)/tsan/%.o: $(REPO)/src/%.cpp
+# a source is taken from the shadow tree when it exists there
+srcof = $(if $(and $(SHADOW),$(wildcard $(SHADOW)/src/$(1))),$(SHADOW)/src/$(1),$(REPO)/src/$(1))
+.SECONDEXPANSION:
+$(OUT)/tsan/%.o: $$(call srcof,$$*.cpp)
 	@mkdir -p $(dir $@)
-	$(CXX) $(CXXFLAGS) -fsanitize=thread -MMD -MP -c $< -o $@
+	$(CXX) $(REPOCXXFLAGS) -I$(dir $(REPO)/src/$*.cpp) -fsanitize=thread -MMD -MP -c $< -o $@
 
-$(OUT)/harness: $(OBJS) $(TSANOBJS) $(KITOBJS) $(SCHEDOBJS) $(LIBS)
-	$(CXX) -pthread -o $@ $(OBJS) $(TSANOBJS) $(KITOBJS) $(SCHEDOBJS) $(LIBS) $(SYSLIBS) $(LDEXTRA)
+$(OUT)/mut/%.o: $$(call srcof,$$*.cpp)
+	@mkdir -p $(dir $@)
+	$(CXX) $(REPOCXXFLAGS) -I$(dir $(REPO)/src/$*.cpp) -MMD -MP -c $< -o $@
+
+$(OUT)/harness: $(OBJS) $(TSANOBJS) $(MUTOBJS) $(KITOBJS) $(SCHEDOBJS) $(LIBS)
+	$(CXX) -pthread -o $@ $(OBJS) $(TSANOBJS) $(filter-out $(patsubst $(OUT)/tsan/%,$(OUT)/mut/%,$(TSANOBJS)),$(MUTOBJS)) $(KITOBJS) $(SCHEDOBJS) $(LIBS) $(SYSLIBS) $(LDEXTRA)
 
 -include $(OBJS:.o=.d) $(KITOBJS:.o=.d) $(TSANOBJS:.o=.d)
 .PHONY: all kits
